@@ -287,6 +287,43 @@ func (node *Node) ProcessBlock(ctx context.Context, block wire.Block) error {
 			inMemPool = node.memPool.RemoveTransaction(*txid)
 		}
 
+		// Check for transactions in the mempool with conflicting inputs (double spends). They are
+		// cancelled by this confirmation whether or not the confirmed tx was seen before.
+		isSafe := true
+		if conflicting := node.memPool.Conflicting(tx); len(conflicting) > 0 {
+			isSafe = false
+			for _, confHash := range conflicting {
+				if containsHash(confHash, unconfirmed) {
+					// Only send for txs that previously matched filters.
+
+					// Mark cancelled
+					txState, err := handlersstorage.FetchTxState(ctx, node.store, confHash)
+					if err != nil {
+						node.txs.ReleaseUnconfirmed(ctx)
+						return errors.Wrap(err, "fetch tx state")
+					}
+
+					txState.State.Safe = false
+					txState.State.UnSafe = true
+					txState.State.Cancelled = true
+
+					if err := handlersstorage.SaveTxState(ctx, node.store, txState); err != nil {
+						node.txs.ReleaseUnconfirmed(ctx)
+						return errors.Wrap(err, "save tx state")
+					}
+
+					// Send update
+					update := &client.TxUpdate{
+						TxID:  confHash,
+						State: txState.State,
+					}
+					for _, handler := range node.handlers {
+						handler.HandleTxUpdate(ctx, update)
+					}
+				}
+			}
+		}
+
 		if inUnconfirmed {
 			// Already seen and marked relevant
 			merkleTree.AddMerkleProof(*txid)
@@ -296,44 +333,6 @@ func (node *Node) ProcessBlock(ctx context.Context, block wire.Block) error {
 
 		} else if !inMemPool {
 			// Not seen yet
-			isSafe := true
-
-			// Transaction wasn't in the mempool.
-			// Check for transactions in the mempool with conflicting inputs (double spends).
-			if conflicting := node.memPool.Conflicting(tx); len(conflicting) > 0 {
-				isSafe = false
-				for _, confHash := range conflicting {
-					if containsHash(confHash, unconfirmed) {
-						// Only send for txs that previously matched filters.
-
-						// Mark cancelled
-						txState, err := handlersstorage.FetchTxState(ctx, node.store, confHash)
-						if err != nil {
-							node.txs.ReleaseUnconfirmed(ctx)
-							return errors.Wrap(err, "fetch tx state")
-						}
-
-						txState.State.Safe = false
-						txState.State.UnSafe = true
-						txState.State.Cancelled = true
-
-						if err := handlersstorage.SaveTxState(ctx, node.store, txState); err != nil {
-							node.txs.ReleaseUnconfirmed(ctx)
-							return errors.Wrap(err, "save tx state")
-						}
-
-						// Send update
-						update := &client.TxUpdate{
-							TxID:  confHash,
-							State: txState.State,
-						}
-						for _, handler := range node.handlers {
-							handler.HandleTxUpdate(ctx, update)
-						}
-					}
-				}
-			}
-
 			if node.IsRelevant(ctx, tx) {
 				// Add to txs for block
 				if _, _, err := node.txs.Add(ctx, *txid, true, true, height); err != nil {
